@@ -23,6 +23,7 @@ From Galaxy.Base Require Import Strs.
 From Galaxy.Model Require Import Nets Pool Ipam Plugin.
 From Galaxy.Model Require Keys.
 From Galaxy.Proofs Require Import IpamP PluginInv PluginUnbindP PluginWitness PluginStaleP PluginPolicyP PluginLiveP.
+From Galaxy.Proofs Require Import PluginReplicasP.
 Local Open Scope N_scope.
 
 (** 1. Safety, one step of a well-formed history: an IP allocated under the key of pod [q] that is free or keyed
@@ -256,3 +257,65 @@ Example alive_pod_keeps_ip_nonvacuous : ∃ nodes ops x o ocl fl e p,
   i_alloc (w_ipam (pstep w (PResync x o ocl fl)).1) !! x = Some e.
 Proof. exact alive_pod_keeps_ip_nonvacuous_l. Qed.
 Print Assumptions alive_pod_keeps_ip_nonvacuous.
+
+(** 7. Immutable deployment: the app keeps at most [replicas] IPs (Proofs/PluginReplicasP.v).
+
+    The app (key prefix "dp_ns_app_") holds MORE IPs than the deployment has replicas - it was scaled down, or a
+    rolling update over-shot: the handled delete / finish event of a pod with the immutable policy frees every IP of the
+    pod's key (same shape as [default_released_by_event]; the replicas are read as [unbind_dp] reads them, through the
+    fields of [keyobj_of q]).
+    Deviations from the statement asked for: the premises [pd_pool q = []] and [f_cloud fl = None] were dropped.  The
+    first follows from [policy_of q = 1] (a pool annotation means never, [policy1_no_pool]).  The second is not needed
+    and [w_provider w] stays general: with a provider the unassign loop runs first, the result [ROk] says that it went
+    through, and it leaves the tables and the workloads as they were. *)
+Theorem immutable_dp_over_replicas_releases : ∀ w n q o oun fl w',
+  WInv w → w_queue w !! n = Some q → pd_kind q = KDp → policy_of q = 1 → f_store fl = None →
+  (∀ x e, i_alloc (w_ipam w) !! x = Some e → e_key e = pod_key q → e_uid e = [] ∨ e_uid e = pd_uid q) →
+  (default 0 (w_dps w !! (Keys.ko_ns (keyobj_of q), Keys.ko_app (keyobj_of q))) <
+   N.of_nat (List.length (by_prefix (w_ipam w) (Keys.pool_prefix (keyobj_of q)))))%N →
+  pstep w (PEvent n o oun fl) = (w', ROk) →
+  ∀ x e, i_alloc (w_ipam w) !! x = Some e → e_key e = pod_key q → i_alloc (w_ipam w') !! x = None.
+Proof. exact immutable_dp_over_replicas_releases_l. Qed.
+Print Assumptions immutable_dp_over_replicas_releases.
+
+(** the complement: the deployment exists with [replicas ≠ 0] and the app holds no more IPs than that.  After the event
+    every IP of the pod's key is parked in the app's reserve - keyed by the pool prefix, node and uid cleared, the stored
+    policy kept ([cleared]) - and no IP at all is freed *)
+Theorem immutable_dp_within_replicas_reserves : ∀ w n q o oun fl w',
+  WInv w → w_queue w !! n = Some q → pd_kind q = KDp → policy_of q = 1 → f_store fl = None →
+  (∀ x e, i_alloc (w_ipam w) !! x = Some e → e_key e = pod_key q → e_uid e = [] ∨ e_uid e = pd_uid q) →
+  default 0 (w_dps w !! (Keys.ko_ns (keyobj_of q), Keys.ko_app (keyobj_of q))) ≠ 0 →
+  ¬ (default 0 (w_dps w !! (Keys.ko_ns (keyobj_of q), Keys.ko_app (keyobj_of q))) <
+     N.of_nat (List.length (by_prefix (w_ipam w) (Keys.pool_prefix (keyobj_of q)))))%N →
+  pstep w (PEvent n o oun fl) = (w', ROk) →
+  (∀ x e, i_alloc (w_ipam w) !! x = Some e → e_key e = pod_key q →
+          ∃ e', i_alloc (w_ipam w') !! x = Some e' ∧ cleared e e' (Keys.pool_prefix (keyobj_of q))) ∧
+  dom (i_alloc (w_ipam w')) = dom (i_alloc (w_ipam w)).
+Proof. exact immutable_dp_within_replicas_reserves_l. Qed.
+Print Assumptions immutable_dp_within_replicas_reserves.
+
+(** The hypotheses are satisfiable.  Reachable worlds ([c03_w_dp repl]): the pods app-5c-x1 (uD) and app-5c-x2 (uE) of
+    deployment ns1/app, policy immutable, are bound to 10.100.0.2 / 10.100.0.3; the deployment is scaled to [repl];
+    app-5c-x1 is deleted and its event is queued.  [repl] = 1 - the app holds 2 IPs: the event frees 10.100.0.2 (and
+    leaves 10.100.0.3 alone).  [repl] = 2: the event parks 10.100.0.2 under "dp_ns1_app_". *)
+Example immutable_dp_nonvacuous :
+  let q := c03_dpod in
+  let ev := PEvent 0 (c03_orc None None [c03_ip]) [] no_faults in
+  let w := c03_w_dp 1 in
+  let w2 := c03_w_dp 2 in
+  WInv w ∧ w_queue w !! 0%nat = Some q ∧ pd_kind q = KDp ∧ pd_pool q = [] ∧ policy_of q = 1 ∧
+  (∃ e, i_alloc (w_ipam w) !! c03_ip = Some e ∧ e_key e = pod_key q ∧ e_uid e = pd_uid q) ∧
+  (∀ x e, i_alloc (w_ipam w) !! x = Some e → e_key e = pod_key q → e_uid e = [] ∨ e_uid e = pd_uid q) ∧
+  default 0 (w_dps w !! (Keys.ko_ns (keyobj_of q), Keys.ko_app (keyobj_of q))) = 1 ∧
+  List.length (by_prefix (w_ipam w) (Keys.pool_prefix (keyobj_of q))) = 2%nat ∧
+  (pstep w ev).2 = ROk ∧ i_alloc (w_ipam (pstep w ev).1) !! c03_ip = None ∧
+  is_Some (i_alloc (w_ipam (pstep w ev).1) !! (c03_ip + 1)) ∧
+  WInv w2 ∧ w_queue w2 !! 0%nat = Some q ∧
+  (∀ x e, i_alloc (w_ipam w2) !! x = Some e → e_key e = pod_key q → e_uid e = [] ∨ e_uid e = pd_uid q) ∧
+  default 0 (w_dps w2 !! (Keys.ko_ns (keyobj_of q), Keys.ko_app (keyobj_of q))) = 2 ∧
+  List.length (by_prefix (w_ipam w2) (Keys.pool_prefix (keyobj_of q))) = 2%nat ∧
+  (pstep w2 ev).2 = ROk ∧
+  (∃ e', i_alloc (w_ipam (pstep w2 ev).1) !! c03_ip = Some e' ∧ e_key e' = L "dp_ns1_app_" ∧ e_uid e' = [] ∧
+         e_node e' = [] ∧ e_policy e' = 1).
+Proof. exact c03_dp_example_l. Qed.
+Print Assumptions immutable_dp_nonvacuous.
